@@ -136,6 +136,8 @@ def docShape : Nat → String
   | 13 => "struct{P string p; Q *int q,omitempty; S string s}"
   -- 14: `$ref Z` where Z carries x-go-name ZRenamed; 15: `$ref ZAlias` where ZAlias is nothing but `$ref Z`
   | 14 => "ZRenamed" | 15 => "ZAlias"
+  -- 16: `$ref NoPtr` where NoPtr carries x-go-type-skip-optional-pointer: true (as an optional member: no pointer)
+  | 16 => "NoPtr"
   | _ => "?"
 
 /-- as the member `m` of `H` the item type is named after the path to it -/
@@ -143,6 +145,10 @@ def docShapeMember : Nat → String
   | 8 => "[]HM" | 9 => "[]H_M_Item" | 10 => "[]H_M_Item"
   | n => docShape n
 
-def shapeRowOk (r : ShapeRow) : Bool := r.got == (if r.asMember then "*" ++ docShapeMember r.shape else docShape r.shape)
+/-- shapes whose optional member opts out of the pointer -/
+def memberNoPointer (n : Nat) : Bool := n == 16
+
+def shapeRowOk (r : ShapeRow) : Bool :=
+  r.got == (if r.asMember then (if memberNoPointer r.shape then docShapeMember r.shape else "*" ++ docShapeMember r.shape) else docShape r.shape)
 
 end OapiVerif.TypeMap
